@@ -260,6 +260,10 @@ def check_request(expect: dict, reqs: list, base_path: str = "/api") -> list[str
     # httpx's own default headers are not the caller's - except `accept`, which a declared header parameter may set (httpx's default is */*)
     gh = sorted((k.lower(), v) for k, v in rq["headers"] if (k.lower() not in HTTPX_DEFAULT_HEADERS or (k.lower() == "accept" and v != "*/*")) and k.lower() != "cookie")
     wh = sorted((k.lower(), v) for k, v in expect["headers"])
+    if expect.get("default_headers"):
+        # the transport's default headers are on every request unless the call itself sets that name (case-insensitively)
+        mine = {k for k, _ in wh}
+        wh = sorted(wh + [(k.lower(), v) for k, v in expect["default_headers"].items() if k.lower() not in mine])
     if gh != wh:
         bad.append(f"headers {gh} != {wh}")
     cookie = [v for k, v in rq["headers"] if k.lower() == "cookie"]
